@@ -71,7 +71,11 @@ func main() {
 			usage()
 		}
 		idx, _ := strconv.Atoi(pos[0])
-		r := pcv.RunWitness(*repo, *verif, idx)
+		prop := ""
+		if len(pos) > 1 {
+			prop = pos[1]
+		}
+		r := pcv.RunWitness(*repo, *verif, idx, prop)
 		data, _ := json.Marshal(r)
 		fmt.Println(string(data))
 	case "explain":
